@@ -399,6 +399,63 @@ theorem decode_as_rest (C : Codec E) (F : List Field) (nm lnm fam : String) (ava
           obtain ⟨⟨rfl, _⟩, rfl⟩ := ht
           exact ⟨r.take (tot - fixedSize F), by simp [decTail]⟩
 
+/-- the layout of a vendor action read generically: type, len, vendor, then the body as raw bytes -/
+def vendorGenericL : Layout := ⟨[.uint "type" 2, .lenSelf 2, .uint "vendor" 4], .rest "body"⟩
+
+/-- **A specific vendor action read as a generic one.**  Whatever layout a class has after the common prefix
+    `type(2) len(2) vendor(4)`, the bytes it encodes are exactly the bytes of the generic vendor action with the same type
+    and vendor and with everything after the prefix as its body; decoding those bytes with the generic layout gives that
+    generic record and consumes exactly them.  (This is what `_unpack_actions` does with Nicira actions: no per-vendor
+    dispatch — the result re-encodes to the same bytes but is an `ofp_action_vendor_generic`.) -/
+theorem vendor_as_generic (C : Codec E) (ok : String → E → Prop) (hC : C.Good ok) (L : Layout) (r : Rec E)
+    (nt nv : String) (F : List Field) (t v : Nat) (vs : List Val) (bs : Bytes)
+    (hL : L.fixed = .uint nt 2 :: .lenSelf 2 :: .uint nv 4 :: F) (hv : r.vals = .num t :: .num v :: vs)
+    (h : encode C L r = some bs) :
+    ∃ body, encode C vendorGenericL ⟨[.num t, .num v], .rest body⟩ = some bs ∧
+      ∀ tl, decode C vendorGenericL none (bs ++ tl) = some (⟨[.num t, .num v], .rest body⟩, tl) := by
+  unfold encode at h
+  cases htb : encTail C L.tail r.tail with
+  | none => simp [htb] at h
+  | some tb =>
+    simp only [htb, hL, hv, encFixed] at h
+    split at h
+    · rename_i ht
+      simp only [Option.map_map] at h
+      split at h
+      · rename_i htot
+        split at h
+        · rename_i hvr
+          cases hfb : encFixed (fixedSize (.uint nt 2 :: .lenSelf 2 :: .uint nv 4 :: F) + tb.length) F vs with
+          | none => simp [hfb] at h
+          | some fb =>
+            simp only [hfb, Option.map_some, Function.comp, Option.some.injEq] at h
+            have hfl := encFixed_length _ _ _ _ hfb
+            have htot' : 8 + (fb ++ tb).length = fixedSize (.uint nt 2 :: .lenSelf 2 :: .uint nv 4 :: F) + tb.length := by
+              simp [fixedSize, hfl]; omega
+            have henc : encode C vendorGenericL ⟨[.num t, .num v], .rest (fb ++ tb)⟩ = some bs := by
+              simp only [encode, vendorGenericL, encTail, encFixed, fixedSize]
+              have e : 2 + (2 + (4 + 0)) + (fb ++ tb).length
+                  = fixedSize (.uint nt 2 :: .lenSelf 2 :: .uint nv 4 :: F) + tb.length := by omega
+              rw [e]
+              simp only [ht, htot, hvr, ↓reduceIte, Option.map_some, Option.some.injEq]
+              rw [← h]; simp [List.append_assoc]
+            refine ⟨fb ++ tb, henc, fun tl => ?_⟩
+            have hf : Fits C ok vendorGenericL ⟨[.num t, .num v], .rest (fb ++ tb)⟩ := by
+              refine ⟨by simp [vendorGenericL, fitsFixed, ht, hvr], trivial, ?_⟩
+              intro t' ht'
+              simp only [vendorGenericL, encTail, Option.some.injEq] at ht'
+              subst ht'
+              simp only [vendorGenericL, fixedSize, lenFits, Bool.and_true, decide_eq_true_eq]
+              have e : 2 + (2 + (4 + 0)) + (fb ++ tb).length
+                  = fixedSize (.uint nt 2 :: .lenSelf 2 :: .uint nv 4 :: F) + tb.length := by omega
+              rw [e]; exact htot
+            obtain ⟨bs', _, he', _, hd, _⟩ := decode_encode C ok hC vendorGenericL _ none tl hf (.inl (by decide))
+            rw [henc] at he'; cases he'
+            exact hd
+        · simp at h
+      · simp at h
+    · simp at h
+
 /-- an encoding whose layout starts with a 16-bit field starts with that field's value -/
 theorem encode_head_uint2 (C : Codec E) (L : Layout) (r : Rec E) (bs : Bytes) (nm : String) (t : Nat)
     (F : List Field) (vs : List Val) (hL : L.fixed = .uint nm 2 :: F) (hv : r.vals = .num t :: vs)
